@@ -70,3 +70,22 @@ Definition models_diff : list str :=
   let differs (l : list model_row) (r : model_row) := negb (existsb (model_row_eqb r) l) in
   map name (List.filter (differs expected_models) report_codetf_models) ++
   map name (List.filter (differs report_codetf_models) expected_models).
+
+(** 7. the regex pipeline on one file: class change_description, the file's run, did apply raise?, the returned ChangeSet *)
+Definition regex_case := (str * file_run * bool * option json)%type.
+Definition regex_model_ok (c : regex_case) : bool :=
+  let '(cd, f, raised, obs) := c in
+  if pipe_aborts the_tables (PRegex cd) f then raised
+  else negb raised &&
+       match fc_changesets (pipe_file the_tables (PRegex cd) f), obs with
+       | [], None => true
+       | [cs], Some j => json_eqb (changeset_json cs) j
+       | _, _ => false
+       end.
+(** ... and the failure list / unfixed findings of the FileContext: failed?, unfixed findings as JSON *)
+Definition regex_ctx_case := (str * file_run * bool * list json)%type.
+Definition regex_ctx_model_ok (c : regex_ctx_case) : bool :=
+  let '(cd, f, failed, unf) := c in
+  let fc := pipe_file the_tables (PRegex cd) f in
+  Bool.eqb (negb (is_nil (fc_failures fc))) failed &&
+  json_eqb (JArr (map unfixed_json (fc_unfixed fc))) (JArr unf).
